@@ -439,6 +439,7 @@ func (r result) node() map[string]interface{} {
 		"matched": r.matched, "hasMp": !r.mp.IsNil(), "mp": N(scaled(r.mp)), "diff": N(new(big.Int).Abs(r.diff)), "diffNeg": r.diff.Sign() < 0,
 		"panic": r.panicked, "panicS": r.panicS,
 		"orders": orders, "allFills": allFills, "pool": r.poolKind,
+		"appId": 0, "pairId": 0, "poolIds": []interface{}{}, "foreignAttempts": 0, "foreignAccepted": 0,
 		"excessSide": side, "excessRoundingSized": roundingSized,
 	}
 	for kx, v := range r.extra {
